@@ -319,7 +319,7 @@ func runReestablish(s *sink, c *kit.Ctx, i int, st *detStats) {
 		w.fc.mu.Unlock()
 	}
 	if viaCRD {
-		gcCtx, stopGC := context.WithCancel(bg)
+		gcCtx, stopGC := context.WithCancel(solicited(bg)) // the collector removes informers because a CRD was deleted
 		defer stopGC()
 		if err := w.eng.GarbageCollectCustomResourceInformers(gcCtx); err != nil {
 			s.Inconclusive("reestablish: cannot start the engine's custom resource informer garbage collector: " + err.Error())
